@@ -175,6 +175,38 @@ def line_offset_rule(ctx, sym, rule):
                   "TIFA lines ignore the active section")
 
 
+def locate_positionless_rule(ctx, sym, rule):
+    """TifaCore.locate executed abstractly on a node that carries no position (ast.match_case, ast.arguments, ...):
+    it may fail (the analysis is then reported as failed) but must not invent a line - line 0 or the bare section
+    offset is not a line of any node of the analysed source."""
+    from .. import symexec
+    core = ctx.repo.module('pedal.tifa.tifa_core')
+    loc = core.func('TifaCore.locate')
+    ctx.analysed_function(core, loc)
+    for offset in (0, 7):
+        node = Obj('ast.match_case')
+        node.attrs['__closed__'] = True
+        me = symexec.self_obj(core, 'TifaCore', line_offset=offset, node_chain=[node], final_node=None)
+
+        def b_getattr(o, name, *default):
+            if isinstance(o, Obj) and name in o.attrs:
+                return o.attrs[name]
+            if default:
+                return default[0]
+            raise Raised('AttributeError', name)
+        fd = symexec.new_fd(sym, core, calls={'Location': lambda line=None, *a, **k: Obj('Location', line=line),
+                                              'getattr': b_getattr,
+                                              'hasattr': lambda o, n: isinstance(o, Obj) and n in o.attrs})
+        got, raised = symexec.run(fd, loc, [node], bound_self=me, what='TifaCore.locate')
+        line = got.attrs.get('line') if isinstance(got, Obj) else got
+        ok = raised is not None or line is None or (isinstance(line, int) and line >= 1 + offset)
+        ctx.check(ok, rule, 'tifa:locate-positionless[offset=%d]' % offset, core, loc,
+                  "a node without a position is located on line %r (section offset %d): no node of the analysed source "
+                  "is on that line" % (line, offset),
+                  "a function with a `match` statement after its `return`: action_after_return is reported on line 0 "
+                  "of a 9-line program")
+
+
 def r2_idempotent(ctx, sym):
     ctx.rule('R2', "decision table of tifa_analysis (abstract interpretation) over cache hit / miss / explicit code / "
                    "default code: a hit returns the cached result without running the analysis; a miss runs "
@@ -378,25 +410,36 @@ def r5b_builtin_lookup_copies(ctx, sym):
     fn = mod.func('get_builtin_name')
     ctx.analysed_function(mod, fn)
 
+    from .. import symexec
+
     def entry(kind):
         o = Obj(kind, kind=kind)
-        o.attrs['method:clone_mutably'] = lambda: ('COPY', kind)
-        o.attrs['method:clone'] = lambda: ('COPY', kind)
+
+        def copy():
+            return Obj('COPY', kind=kind, copy_of=o)
+        o.attrs['method:clone_mutably'] = copy
+        o.attrs['method:clone'] = copy
         return o
     table = {'len': entry('FunctionType'), 'list': entry('ListConstructor'), 'int': entry('IntConstructor'),
              '__name__': entry('StrType')}
+    # one interpreter for all look-ups: module-level memo tables behave as within one process
+    fd = symexec.new_fd(sym, mod, calls={'isinstance': lambda o, t: isinstance(o, Obj) and o.attrs.get('kind') == t},
+                        extra={'BUILTIN_NAMES': table, 'FunctionType': 'FunctionType'})
     for name in list(table) + ['nope']:
-        fd = FD()
-        fd.resolver = lambda n: {'BUILTIN_NAMES': table, 'FunctionType': 'FunctionType'}[n]
-        fd.calls['isinstance'] = lambda o, t: isinstance(o, Obj) and o.attrs.get('kind') == t
-        try:
-            got = fd.call_function(fn, [name])
-        except (Raised, Inconclusive) as e:
-            raise AnalysisError("C18 R5b: get_builtin_name outside the decidable fragment: %s" % e)
-        want = ('COPY', table[name].attrs['kind']) if name in table else None
-        ctx.check(got == want, 'R5b', 'get_builtin_name[%s]' % name, mod, fn,
-                  "get_builtin_name(%r) returns %s instead of %s" % (
-                      name, 'the shared table entry itself' if isinstance(got, Obj) else repr(got), want),
+        got, raised = symexec.run(fd, fn, [name], what='get_builtin_name')
+        again, raised2 = symexec.run(fd, fn, [name], what='get_builtin_name')
+        if name in table:
+            ok = raised is None and raised2 is None and all(
+                isinstance(g, Obj) and g._name == 'COPY' and g.attrs.get('copy_of') is table[name]
+                for g in (got, again)) and got is not again
+            why = ("the shared table entry itself" if got is table[name] else
+                   "the same copy on every look-up" if got is again else repr(got))
+        else:
+            ok = raised is None and got is None and again is None
+            why = repr(got)
+        ctx.check(ok, 'R5b', 'get_builtin_name[%s]' % name, mod, fn,
+                  "get_builtin_name(%r) returns %s; every look-up of a known name must hand out a fresh copy (None for "
+                  "an unknown name)" % (name, why),
                   "names = list(); ...; scores: list[int] analysed twice in one process: the second analysis sees the "
                   "constructor already parameterised and reports an extra issue")
 
@@ -459,6 +502,7 @@ def run(ctx):
     sym = Symbols(ctx.repo)
     r5b_builtin_lookup_copies(ctx, sym)
     r6_issue_locations(ctx, sym)
+    locate_positionless_rule(ctx, sym, 'R6')
     r1_never_raises(ctx, sym)
     r1c_constants_complete(ctx, sym)
     from .c19 import binop_cells_callable
